@@ -692,7 +692,12 @@ class Interp:
                 self.assume(z3.And(z3.Select(src_set, cur), z3.Not(z3.Select(d.dom, cur))))
                 elem = ek.wrap(cur, self)
                 if isinstance(it, VDictItems):
-                    elem = VTuple((elem, it.d.vk.wrap(z3.Select(it.d.map, cur), self)))
+                    env['_key'] = elem
+                    val = it.d.vk.wrap(z3.Select(it.d.map, cur), self)
+                    if it.what == 'items':
+                        elem = VTuple((elem, val))
+                    elif it.what == 'values':
+                        elem = val
             else:
                 y = z3.Const(self.fresh_name('e'), ek.sort())
                 self.assume(z3.ForAll([y], z3.Select(src_set, y) == z3.Select(d.dom, y),
@@ -717,12 +722,13 @@ class Interp:
                 self.exec_block(s.orelse, fr)
             return
         # 5. one arbitrary iteration
+        pre_ids = self.reachable_ids(fr)
         if kind == 'for':
             self.assign(s.target, elem, fr)
         if ls.decreases:
             dec0 = int_term(self.spec_eval(ls.decreases, self.spec_env(fr), fr.old))
         saved_log = self.mutlog
-        self.mutlog = (self.loop_havocked, self.reachable_ids(fr))
+        self.mutlog = (self.loop_havocked, pre_ids)
         try:
             if ls.ghost_begin:
                 self.ghost_exec(ls.ghost_begin, fr)
@@ -1546,6 +1552,17 @@ class Interp:
 
     def apply_contract_env(self, c, env, node, fr):
         callee = short_key(c.key)
+        if self.mode == 'quant':
+            # inside a comprehension element: only calls whose result is a specification expression
+            if c.pure is None:
+                raise EngineError(f'{c.key} called inside a comprehension needs a `pure` result expression')
+            if c.trusted:
+                self.assumed.add(c.trusted)
+            self.V.used_contracts.add(c.key)
+            for typ, conds in c.raises.items():
+                cond = z3.And(*[self.spec_bool(x, env) for x in conds]) if conds else z3.BoolVal(True)
+                self.raise_if(cond, typ, node)
+            return self.spec_eval(c.pure, env)
         site = f'{self.fn_label(fr)}.pre@{self.stmt_tag(node)}:{callee}'
         where = self.where(node, fr)
         if c.trusted:
@@ -1592,6 +1609,7 @@ class Interp:
             env['result'] = res
             for gname, gk in c.ghost_results.items():
                 env[gname] = gk.fresh(self, gname)      # existential witnesses of the callee's ghost outputs
+                fr.env[gname] = env[gname]              # ... visible to the caller's own ghost code
             for lab, ens in c.ensures:
                 self.assume(self.spec_bool(ens, env, old))
             if isinstance(selfv, VObj) and c.maintains_inv:
@@ -1837,7 +1855,11 @@ def assigned_in(stmts):
 
         def visit_Call(self, n):
             if isinstance(n.func, ast.Attribute) and n.func.attr in MUTATORS:
-                exprs.append(n.func.value)
+                r = n.func.value
+                exprs.append(r)
+                while isinstance(r, ast.Subscript):      # d[k].append(x) also changes d
+                    r = r.value
+                    exprs.append(r)
             self.generic_visit(n)
 
         def visit_comprehension(self, n):
